@@ -2,11 +2,14 @@ package storage
 
 import (
 	"context"
+	"io/ioutil"
+	"os"
 	"testing"
 
 	"github.com/marekgalovic/anndb/cluster"
 	pb "github.com/marekgalovic/anndb/protobuf"
 	"github.com/marekgalovic/anndb/storage/raft"
+	badger "github.com/dgraph-io/badger/v2"
 	"github.com/golang/protobuf/proto"
 	uuid "github.com/satori/go.uuid"
 )
@@ -31,11 +34,16 @@ func verifManager(t *testing.T) (*DatasetManager, *verifLogGroup, func()) {
 	conn.AddNode(1, ":0")
 	alloc := NewAllocator(conn)
 	g := &verifLogGroup{}
-	dm, err := NewDatasetManager(g, nil, nil, conn, alloc)
+	dir, _ := ioutil.TempDir("", "verif-replay")
+	db, err := badger.Open(badger.DefaultOptions(dir).WithLogger(nil))
 	if err != nil {
 		t.Fatal(err)
 	}
-	return dm, g, alloc.Stop
+	dm, err := NewDatasetManager(g, db, raft.NewTransport(1, ":0", conn), conn, alloc)
+	if err != nil {
+		t.Fatal(err)
+	}
+	return dm, g, func() { dm.Close(); alloc.Stop(); db.Close(); os.RemoveAll(dir) }
 }
 
 // Replay of (*storage.DatasetManager).processSnapshot/post#exact (C14): restoring a catalogue snapshot must yield exactly the
@@ -47,7 +55,7 @@ func TestVerifReplayC14SnapshotRestoreExact(t *testing.T) {
 	follower, _, stop2 := verifManager(t)
 	defer stop2()
 
-	ds, err := leader.Create(context.Background(), &pb.Dataset{Dimension: 2, PartitionCount: 0, ReplicationFactor: 1})
+	ds, err := leader.Create(context.Background(), &pb.Dataset{Dimension: 2, PartitionCount: 1, ReplicationFactor: 1})
 	if err != nil {
 		t.Fatal(err)
 	}
